@@ -42,6 +42,16 @@ CHECKS["C01"] = ("exploration",
   "Generated search over histories x values x close points: 24,000 sequences + 600 sweeps (x up to 27 variants) + 41 directed cases (each of 26 code pages with strings from its repertoire, package types, long-string boundary lengths, integer boundaries) in the quick tier; 300,000 / 8,000 in thorough. Crash-after-flush is the FlushAndCopy close mode (bytes copied from the live medium when flush returns).",
   "Trusted: the harness observer (public API only) and the shared-buffer medium. Torn writes in the middle of a flush are outside the statement.",
   "DESIGN.md section 4, C01")
+CHECKS["C03"] = ("exploration",
+  "model-based stateful testing: proptest-generated late-bound operation sequences applied to the package and to an in-memory relational model, full snapshot comparison after every step; bounded-exhaustive enumeration of all op sequences up to depth 4/5 over a 12-op alphabet",
+  "Exhaustive for all sequences of length <= 4 (5 in thorough) over 12 concrete ops (insert single/batch, update value/all/key, key collision, delete one/all/by value, select with projection, reopen) on a two-column table with a frame table; 12,000 (200,000) generated sequences with conditions, projections, composite/nullable/string keys and reopen points.",
+  "Trusted: the reference model and reference evaluator. Conditions are generated so that their truth value is specified (comparisons between a column and a literal of its type, null-guarded).",
+  "DESIGN.md section 4, C03")
+CHECKS["C05"] = ("exploration",
+  "stateful invariant checking: proptest-generated operation sequences weighted to key-assigning updates, batch inserts and delete/insert cycles; invariant (unique keys, ascending order, valid cells) evaluated on the API-reported schema and rows after every step and after every reopen",
+  "16,000 (200,000) generated histories; the invariant needs no model, only what the API returns.",
+  "Trusted: the reference validity predicate (model.rs). A null read back in a non-nullable string column counts as the empty string.",
+  "DESIGN.md section 4, C05")
 NOT_YET = {}
 
 def main():
